@@ -57,7 +57,12 @@ class ClassTable(Table):
             return acc
         return [canon_typ(t)]
 
-    accept_return_default = lambda self, p, pf: self.accept_default("return_type", p, pf)  # noqa: E731
+    def accept_return_default(self, p, pf):
+        from .canon import return_default_equivalents
+
+        acc = self.accept_default("return_type", p, pf)
+        return acc + (return_default_equivalents(p["default"])[1:] if "default" in p else [])
+
     accept_return_typ = lambda self, p, pf: self.accept_typ("return_type", p, pf)  # noqa: E731
 
 
@@ -89,7 +94,9 @@ class FunctionTable(Table):
         if c[0] == "str":
             from .canon import _strip_parens_dump
 
-            return [c, ("code", _strip_parens_dump(d))]
+            from .canon import return_default_equivalents
+
+            return [c, ("code", _strip_parens_dump(d))] + return_default_equivalents(d)[1:]
         return [c]
 
 
@@ -166,7 +173,9 @@ class ArgparseTable(Table):
         if c[0] == "str":
             from .canon import _strip_parens_dump
 
-            return [c, ("code", _strip_parens_dump(d))]
+            from .canon import return_default_equivalents
+
+            return [c, ("code", _strip_parens_dump(d))] + return_default_equivalents(d)[1:]
         return [c]
 
 
